@@ -14,6 +14,7 @@ volatile uint64_t pushed_done[NPROD];  /* ghost: completed pushes per producer (
 volatile uint64_t pushed_begun[NPROD]; /* ghost: begun pushes per producer (written before push is called) */
 
 void vm_init(void) { mpsc_fifo_init(&q); }
+void vm_setup(void) { for (int p = 0; p < NPROD; p++) for (int i = 0; i < NPUSH; i++) nodes[p][i].next = (mpsc_fifo_node_t*)vm_nondet(); } /* link fields hold garbage before the push */
 
 static inline void producer(int p) {
   for (int i = 0; i < NPUSH; i++) {
